@@ -11,3 +11,8 @@ def targets(eng):
     return conn.targets_for(eng, ["__init__", "lemma:step", "_cleanup", "report_fatal_error", "_handle_disconnect_request_internal", "force_disconnect",
                                   "disconnect", "_async_pong_not_received", "send_messages", "_set_connection_state", "finish_connection",
                                   "start_connection", "process_packet", "_async_send_keep_alive"], ["C07"])
+
+
+# built-in mutants of the real source text for the thorough tier's self-check (each must be refuted by a named obligation)
+MUTANTS = [('stop-callback-without-was-connected', 'aioesphomeapi/connection.py', '        if (on_stop := self.on_stop) is not None and was_connected:', '        if (on_stop := self.on_stop) is not None:'),
+           ('stop-callback-kept', 'aioesphomeapi/connection.py', '            self.on_stop = None\n            on_stop(self._expected_disconnect)', '            on_stop(self._expected_disconnect)')]
